@@ -479,7 +479,7 @@ func run(c *vh.Ctx) error {
 	}
 
 	// ---- headers ----------------------------------------------------------------------------------------
-	nWorlds := c.N(14, 120)
+	nWorlds := c.N(50, 480)
 	if c.Search {
 		nWorlds *= 2
 	}
